@@ -167,6 +167,11 @@ func RunProperty(p *Property, tier string, self string) int {
 				case hangAt >= 0:
 					c := caseAt(p, tier, hangAt)
 					o := Outcome{Violation: fmt.Sprintf("hang: no result after the watchdog limit (case %d)", hangAt), FindingKey: "hang", Class: "hang"}
+					if p.HangKey != nil {
+						if nc := p.NewCase(); json.Unmarshal(c, nc) == nil {
+							o.FindingKey += p.HangKey(nc)
+						}
+					}
 					mu.Lock()
 					viols = append(viols, foundViolation{hangAt, c, o})
 					mu.Unlock()
